@@ -8,8 +8,50 @@ from .vals import Vals, norm_path
 from . import pat
 
 
+WANTED = []      # hints for the helper-inlining fallback: predicates over bodies that would contain a lost anchor
+
+
+def want(pred):
+    WANTED.append(pred)
+
+
+def calls_body(R, target):
+    """predicate: the body calls `target` (a Body) directly"""
+    return lambda b: any(cb is target or cb.key == target.key for _bi, _t, cb in R.local_callees(b))
+
+
+def builds_adt(*suffixes):
+    """predicate: the body builds a value of an ADT whose path ends with one of the suffixes"""
+    def pred(b):
+        for blk in b.blocks:
+            for st in blk["stmts"]:
+                rv = st.get("rv") or {}
+                if rv.get("k") == "aggregate" and rv.get("agg") == "adt" and str(rv.get("adt", "")).endswith(suffixes):
+                    return True
+        return False
+    return pred
+
+
+def writes_field(*names):
+    """predicate: the body assigns a place whose projection ends in one of the field names, or builds a struct with such a field"""
+    def pred(b):
+        for blk in b.blocks:
+            for st in blk["stmts"]:
+                flds = [e.get("name") for e in st["place"]["p"] if e.get("k") == "field"]
+                if flds and flds[-1] in names:
+                    return True
+                rv = st.get("rv") or {}
+                if rv.get("k") == "aggregate" and any(n in (rv.get("fields") or []) for n in names):
+                    return True
+        return False
+    return pred
+
+
 class RoleLost(Exception):
-    pass
+    def __init__(self, msg, wanted=None):
+        Exception.__init__(self, msg)
+        if wanted is not None:
+            WANTED.append(wanted)
 
 
 class Roles:
